@@ -8,21 +8,22 @@ import (
 // ---- schema model: what the source says ----
 
 type mRule struct {
-	name  string
-	text  string // how the value is written in the annotation
-	want  schema.RuleASTNode
+	name string
+	text string // how the value is written in the annotation
+	want schema.RuleASTNode
 }
 
 type mNode struct {
-	kind     string // token type expected in the AST
-	key      string
-	shortcut bool
-	valText  string // literal as written
-	valWant  string // AST Value
-	rules    []mRule
-	note     string
-	multi    bool // annotation written as /* */ instead of //
-	children []mNode
+	kind        string // token type expected in the AST
+	key         string
+	shortcut    bool
+	valText     string // literal as written
+	valWant     string // AST Value
+	rules       []mRule
+	note        string
+	multi       bool   // annotation written as /* */ instead of //
+	userComment string // ` # ...` written after the annotation (part of the text, not of the meaning)
+	children    []mNode
 }
 
 func mNum(tok, v string) schema.RuleASTNode {
@@ -129,9 +130,12 @@ func mNote(tag string) string {
 func mIntRules(tag string) []mRule {
 	a := zzverif.OneOf(tag+"min", "012345")
 	b := zzverif.OneOf(tag+"max", "56789")
+	// rule values are reported AS WRITTEN: also non-canonical spellings
+	minText := string([]byte{a}) + []string{"", ".0", ".50", ".00"}[zzverif.IntRange(tag+"minForm", 0, zzverif.Bound("minForms", 2, 3))]
+	maxText := string([]byte{b}) + []string{"", ".0", ".250"}[zzverif.IntRange(tag+"maxForm", 0, zzverif.Bound("maxForms", 0, 2))]
 	pool := []mRule{
-		{"min", string([]byte{a}), mNum(schema.TokenTypeNumber, string([]byte{a}))},
-		{"max", string([]byte{b}), mNum(schema.TokenTypeNumber, string([]byte{b}))},
+		{"min", minText, mNum(schema.TokenTypeNumber, minText)},
+		{"max", maxText, mNum(schema.TokenTypeNumber, maxText)},
 		{"nullable", "false", mNum(schema.TokenTypeBoolean, "false")},
 	}
 	order := [][]int{{}, {0}, {1}, {2}, {0, 1}, {1, 0}, {0, 2}, {2, 1}, {0, 1, 2}, {2, 1, 0}, {1, 2, 0}}
@@ -198,6 +202,8 @@ func VerifC04_Containers() {
 	root.children = append(root.children, mk(3, mNode{kind: schema.TokenTypeShortcut, valText: "@t | @u", valWant: "@t | @u"}))
 	if isObj {
 		root.children = append(root.children, mNode{kind: schema.TokenTypeNumber, key: "@t", shortcut: true, valText: "1", valWant: "1"})
+		// a QUOTED key that merely looks like a type name is an ordinary key
+		root.children = append(root.children, mNode{kind: schema.TokenTypeNumber, key: "@u", valText: "2", valWant: "2"})
 	}
 	text := mPrint(root)
 	s := New("s", text)
@@ -220,6 +226,7 @@ func mIntRulesFor(d string) []mRule {
 func VerifC04_NestedLists() {
 	zzverif.Expect("checked")
 	a := string([]byte{zzverif.OneOf("a", "01234")})
+	a9 := string([]byte{zzverif.Digit("a9")})
 	var n mNode
 	switch zzverif.IntRange("family", 0, 3) {
 	case 0:
@@ -237,12 +244,12 @@ func VerifC04_NestedLists() {
 				Items: []schema.RuleASTNode{mNum(schema.TokenTypeNumber, a), mNum(schema.TokenTypeString, "x"),
 					mNum(schema.TokenTypeBoolean, "true"), mNum(schema.TokenTypeNull, "null"), mNum(schema.TokenTypeNumber, "7.5")}}}}
 	case 2:
-		big := []string{"18446744073709551615", "9999999999999999999", "1000000000000000000" + a, "12345678901234567" + a + "0"}[zzverif.IntRange("big", 0, 3)]
+		big := []string{"18446744073709551615", "9999999999999999999", "1000000000000000000" + a, "12345678901234567" + a + "0", "1844674407370955161" + a9, "1844674407370955162" + a9}[zzverif.IntRange("big", 0, 5)]
 		n = mNode{kind: schema.TokenTypeString, valText: `"abc"`, valWant: "abc"}
 		n.rules = []mRule{{"maxLength", big, mNum(schema.TokenTypeNumber, big)}}
 	default:
 		n = mNode{kind: schema.TokenTypeArray, note: mNote("n.")}
-		n.rules = []mRule{{"maxItems", "1844674407370955161" + a, mNum(schema.TokenTypeNumber, "1844674407370955161"+a)}}
+		n.rules = []mRule{{"maxItems", "1844674407370955161" + a9, mNum(schema.TokenTypeNumber, "1844674407370955161"+a9)}}
 		n.children = []mNode{{kind: schema.TokenTypeNumber, valText: "1", valWant: "1"}}
 	}
 	n.note = mNote("t.")
